@@ -33,7 +33,8 @@ def gen_call(rng, profile, call_idx):
     n_jobs = rng.choice([2, 2, 3, 3, 4, 5])
     # expressions are evaluated to a float and TRUNCATED (int()): fractions above and below one half, exact halves
     pre = rng.choice([1, 2, 3, "all", "n_jobs", "2*n_jobs", "1.5*n_jobs", "2*n_jobs", 5, "2.6*n_jobs", "1.5*n_jobs",
-                      "n_jobs+n_jobs/2", "7*n_jobs/4", "3*n_jobs//2"])
+                      "n_jobs+n_jobs/2", "7*n_jobs/4", "3*n_jobs//2", "3/2*n_jobs", "n_jobs/4*8", "(n_jobs+1)/8*6+1",
+                      "2**n_jobs/2", "-(-n_jobs)*1.0", "n_jobs%2+2"])
     mode = rng.choice(["ordered", "ordered", "unordered"]) if profile != "c16" else rng.choice(["ordered", "unordered"])
     amount = pre_amount(pre, n_jobs)
     base = (amount or 4)
